@@ -351,7 +351,7 @@ func init() {
 	fw.Register(&fw.Property{
 		ID:          "C20",
 		Level:       "exploration",
-		Rule:        "seeded Add/Flush/reopen programs over a small hash universe (few first bytes incl. 0x00/0xFF, few tails) x batch sizes (and bulk programs with hundreds of pending hashes of one first byte) x file/buffer backing x hashes passed as separate slices or as slices carved from one buffer (which must come back unmodified); after every flush and reopen Has is compared with a Go map for EVERY hash of the universe and the raw file is checked for sorted entries and a consistent fan-out; distinct_nontrivial = distinct (universe,batch,backing,members,seed) programs with >=2 members and >=1 flush",
+		Rule:        "seeded Add/Flush/reopen programs over a small hash universe (few first bytes incl. 0x00/0xFF, few tails) x batch sizes (and bulk programs with hundreds to 1 700 pending hashes of one first byte under batch sizes up to 4096) x file/buffer backing x hashes passed as separate slices or as slices carved from one buffer (which must come back unmodified); after every flush and reopen Has is compared with a Go map for EVERY hash of the universe and the raw file is checked for sorted entries and a consistent fan-out; distinct_nontrivial = distinct (universe,batch,backing,members,seed) programs with >=2 members and >=1 flush",
 		Assumptions: []string{"callers never modify a slice after handing it to Add (fresh slices as RowCollector passes them, or read-only slices of one buffer)", "Len() equal to the model size is not demanded"},
 		Gen: func(tier string, seed int64) []fw.Case {
 			l := fw.NewCaseList("C20", tier, seed)
@@ -373,6 +373,11 @@ func init() {
 			// many hashes of one bucket pending in a single flush (a per-bucket counter of one byte would wrap)
 			for i := 0; i < l.N(6, 120); i++ {
 				l.Add("bulk", c20Params{Universe: 300 + 60*(i%5), Steps: 900, Batch: []uint32{0, 400, 1000}[i%3], Backing: []string{"file", "buffer"}[i%2], OneBucket: true}, int64(3000+i))
+			}
+			// ... and more than a thousand of them under a batch size above the default
+			for i := 0; i < l.N(3, 60); i++ {
+				u := 1100 + 150*(i%5)
+				l.Add("bulk", c20Params{Universe: u, Steps: u + 40, Batch: []uint32{1500, 2048, 4096}[i%3], Backing: []string{"file", "buffer"}[i%2], OneBucket: true}, int64(3500+i))
 			}
 			n := l.N(1000, 60000)
 			rng := l.Rng()
